@@ -28,6 +28,26 @@ func init() {
 		"(*sync.WaitGroup).Wait":   nop,
 		"(*sync.Pool).Put":         nop,
 		"(*sync.Pool).Get":         poolGet,
+		// reflect: only the "is this interface a nil pointer" idiom (fastlog.Line.Struct / Stringer)
+		"reflect.ValueOf": func(e *Engine, st *State, th *Thread, fn *ssa.Function, args []Val) Val {
+			return StructV{F: []Val{args[0], nil, nil}}
+		},
+		"(reflect.Value).Kind": func(e *Engine, st *State, th *Thread, fn *ssa.Function, args []Val) Val {
+			iv, _ := args[0].(StructV).F[0].(IfaceV)
+			return IntV{e.tb.BV(uint64(reflectKind(iv.T)), 64)}
+		},
+		"(reflect.Value).IsNil": func(e *Engine, st *State, th *Thread, fn *ssa.Function, args []Val) Val {
+			iv, _ := args[0].(StructV).F[0].(IfaceV)
+			switch x := iv.V.(type) {
+			case PtrV:
+				return BoolV{e.tb.Bool(x.Obj == 0 && x.Fn == "")}
+			case SliceV:
+				return BoolV{e.tb.Bool(x.Obj == 0)}
+			case MapV:
+				return BoolV{e.tb.Bool(x.Obj == 0)}
+			}
+			panic(engineErr("reflect.Value.IsNil on %T", iv.V))
+		},
 		// the file-system models never return a wrapped os.ErrNotExist (package os is not initialised in the engine)
 		"os.IsNotExist": func(e *Engine, st *State, th *Thread, fn *ssa.Function, args []Val) Val { return BoolV{e.tb.ff} },
 		"sync/atomic.StoreUint32":  atomicStore,
@@ -756,4 +776,66 @@ func (e *Engine) valKey(v Val) string {
 		return "{" + strings.Join(p, ",") + "}"
 	}
 	panic(engineErr("unique.Make of %T", v))
+}
+
+
+// reflectKind: reflect.Kind of a dynamic type.
+func reflectKind(t types.Type) int {
+	if t == nil {
+		return 0
+	}
+	switch u := t.Underlying().(type) {
+	case *types.Basic:
+		switch u.Kind() {
+		case types.Bool:
+			return 1
+		case types.Int:
+			return 2
+		case types.Int8:
+			return 3
+		case types.Int16:
+			return 4
+		case types.Int32:
+			return 5
+		case types.Int64:
+			return 6
+		case types.Uint:
+			return 7
+		case types.Uint8:
+			return 8
+		case types.Uint16:
+			return 9
+		case types.Uint32:
+			return 10
+		case types.Uint64:
+			return 11
+		case types.Uintptr:
+			return 12
+		case types.Float32:
+			return 13
+		case types.Float64:
+			return 14
+		case types.String:
+			return 24
+		case types.UnsafePointer:
+			return 26
+		}
+	case *types.Array:
+		return 17
+	case *types.Chan:
+		return 18
+	case *types.Signature:
+		return 19
+	case *types.Interface:
+		return 20
+	case *types.Map:
+		return 21
+	case *types.Pointer:
+		return 22
+	case *types.Slice:
+		return 23
+	case *types.Struct:
+		return 25
+	}
+	panic(engineErr("reflect kind of %s", t))
 }
